@@ -230,6 +230,8 @@ def det_runs(ctx, d, texts, files, opts, idx, use_valgrind=True):
             res["runs"].append(("valgrind", rc, dd))
             if dd and "first" not in res:
                 res["first"] = ("valgrind", dd[0], first_diff(tree0.get(dd[0], b""), tree.get(dd[0], b"")))
+        elif rc == 999:
+            res["vg"] = (999, "")         # valgrind too slow for this input under the current load: no verdict
         elif rc != VG_RC and rc != rc0:
             res["runs"].append(("valgrind", rc, []))
             res.setdefault("first", ("valgrind", None, "rc %d vs %d: %s" % (rc0, rc, se[-300:])))
@@ -247,7 +249,7 @@ def report_det(run, rep, r, what):
     for (l, rc, dd) in r["runs"]:
         run.count("det_run:" + l)
     if "vg" in r:
-        run.count("valgrind_runs")
+        run.count("valgrind_runs" if r["vg"][0] != 999 else "valgrind_timeouts")
         if r["vg"][0] == VG_RC:
             ok = False
             run.violation("oracle:uninitialised-read", dict(rep, what="valgrind memcheck reports an error in asn1c (%s)" % what,
@@ -453,7 +455,9 @@ def case_corpus_gen(ctx, idx, path, opts):
     d = os.path.join(root, "g%05d" % idx)
     f = "in/" + os.path.basename(path)
     res = {"path": path}
-    res["det"] = det_runs(ctx, d, {f: open(path, "rb").read()}, [f], opts, idx)
+    src = open(path, "rb").read()
+    # memcheck is 20-50x slower: the two largest examples (rrc, MEGACO: > 100 KB) go without it
+    res["det"] = det_runs(ctx, d, {f: src}, [f], opts, idx, use_valgrind=len(src) < 100000)
     res["tree"] = per_type(res["det"].pop("tree"))
     shutil.rmtree(d, ignore_errors=True)
     return res
